@@ -44,6 +44,20 @@ T = {
  "C09b": ("C09", "a rollup-origin claim with leaf index >= 2", "C09: aggsender monitor 'the exit leaf does not hash with proof_leaf_ler to the stated local exit root' + claimdata correspondence; also C08 (tree scenario uses tree.CalculateRoot)"),
  "C12a": ("C12", "a mainnet deposit newer than the first info leaf (the search then keeps the non-covering first leaf as its answer)", "C12: bridgeapi monitor '/l1-info-tree-index returned leaf … but that leaf's mainnet exit root covers only …' + correspondence with the modelled binary search"),
  "C12b": ("C12", "a repeated bridge (same leaf hash) on an even deposit count whose exit root is named by an info leaf", "C12: bridgeapi monitor '/claim-proof: deposit does not hash with the returned proof to the exit root' (30% of bridges repeat an earlier one); also C08 (duplicate-leaf generator)"),
+ "C02r2a": ("C02", "two cooperating sites (IsOpen treats Candidate as closed + the 'unknown status' guard removed): a status poll while the certificate is Candidate, then new L2 blocks and an epoch tick", "C02: aggsender monitors 'submitted while … undecided' / settled chain (+ correspondence)"),
+ "C02r2b": ("C02", "two cooperating sites: the very first certificate (first block 1) goes InError and a new L2 block arrives before the retry", "C02: aggsender monitor 'starts at block …, expected …' (+ correspondence)"),
+ "C03r2a": ("C03", "a statement fault exactly on the bridge-row insert of the L2 bridge processor (error swallowed, block commits without the row)", "C03: aggsender op `l2blk!` (one-shot fault on the bridge insert, then retry): monitor 'carries n exits, the blocks hold m'; also C07 (bridgestore twin comparison, fault index biased to row inserts, one-shot FAIL trigger)"),
+ "C03r2b": ("C03", ">= 2 earlier deposits, then a block range with claims but no bridge", "C03: aggsender root monitor 'appending its 0 exits … does not give its new exit root'"),
+ "C06r2a": ("C06", "the node is stopped (context cancelled) while a reorg notification is pending, then restarted", "C06: reorgsync op `detect!` now runs the pass under the node's context and cancels it at the stop: monitors 'rewound to block …' / convergence"),
+ "C06r2b": ("C06", "restart with tracked blocks on disk, then Subscribe by the new driver", "C06: reorgsync monitor 'processed block … which the chain has replaced, a detection pass did not rewind it' + tracked lists after restart"),
+ "C09r2a": ("C09", "two certificates in one process with claims against the same global exit root, the finalized L1 info root advancing in between", "C09: aggsender monitor 'the L1 info leaf does not hash with its proof to the L1 info root the certificate names'"),
+ "C09r2b": ("C09", "one transaction with two claims whose global indexes differ only in bit 64 (calldata matching)", "C20 (claimtrace scenario: global indexes differing above bit 63); not reachable in the C09 scenario, which feeds claims to the processor directly"),
+ "C10r2a": ("C10", "a Message-type exit read back from the stored JSON copy", "C10: aggsender monitor 'the stored copy does not reproduce the submitted message'"),
+ "C10r2b": ("C10", "a rollup-origin imported exit whose two calldata proofs differ", "C10/C09: aggsender monitor 'proof_ler_rer on the wire is not the claim's rollup-exit-root proof' + claimdata correspondence"),
+ "C12r2a": ("C12", ">= 2 verifications in different L1 blocks and a search ending on a non-covering probe", "C12: bridgeapi monitor '/l1-info-tree-index returned leaf … covers only …' + correspondence with the modelled search"),
+ "C12r2b": ("C12", "another rollup verified before the L1 info leaf used for the claim", "C12: bridgeapi monitor '/claim-proof: the local exit root does not hash with the returned rollup proof'"),
+ "C13r2a": ("C13", "a Settled local record whose certificate the Agglayer does not know, Agglayer's latest at the same height", "C13: aggsender op `forge` + monitor 'start-up proceeded although the node's last record … is unknown to the Agglayer' (+ correspondence: model refuses)"),
+ "C13r2b": ("C13", "history table on; InError certificate, replacement submitted but not recorded, restart, replacement InError again, next replacement", "C13/C02: directed prelude + monitor 'certificate … was submitted but the node's records do not end with it' (+ correspondence on the retry count)"),
 }
 for d in sorted(os.listdir(S)):
     p = os.path.join(S, d)
